@@ -55,8 +55,8 @@ StringDictionaryFMINDEX::StringDictionaryFMINDEX(IteratorDictString *it,
   uint *bitmap = 0;
 
   if (BWTsampling > 0) {
-    bitmap = new uint[(len + 1 + W) / W];
-    for (uint i = 0; i < (len + 1 + W) / W; i++)
+    bitmap = new uint[(len + 2 + W) / W];
+    for (uint i = 0; i < (len + 2 + W) / W; i++)
       bitmap[i] = 0;
     bitset(bitmap, 0);
   }
@@ -98,7 +98,8 @@ StringDictionaryFMINDEX::StringDictionaryFMINDEX(IteratorDictString *it,
   this->separators = NULL;
 
   if (BWTsampling > 0) {
-    separators = new BitSequenceRRR(bitmap, len);
+    // one bit per suffix array position 0..len (len is the empty suffix)
+    separators = new BitSequenceRRR(bitmap, len + 1);
     delete[] bitmap;
   } else
     separators = NULL;
